@@ -92,27 +92,17 @@ def shrink_candidates(plan):
         p["build_copy"] = False
         yield p
     spec = plan["spec"]
-    used = set()
-    for it in spec:
-        for r in list(it.get("inputs", [])) + list(it.get("kw", {}).values()) + ([it["input"]] if "input" in it else []) + ([it["at"]] if "at" in it else []) + (list(it["dist"]["args"].values()) if it.get("dist") else []):
-            if "i" in r:
-                used.add(r["i"])
-        if it["k"] == "group":
-            used |= set(it["members"].values())
     for i in range(len(spec) - 1, -1, -1):
-        if i in used or spec[i]["k"] == "group":
+        if spec[i]["k"] == "group":
             continue
-        names = {spec[i]["name"], f"{spec[i]['name']}_value"}
+        names = M.item_names(spec[i])
         if any(op[0] == "assign" and op[1] in names for op in ops):
             continue
+        new = M.drop_item(spec, i)
+        if new is None:
+            continue
         p = copy.deepcopy(plan)
-        del p["spec"][i]
-        for it in p["spec"]:
-            for r in list(it.get("inputs", [])) + list(it.get("kw", {}).values()) + ([it["input"]] if "input" in it else []) + ([it["at"]] if "at" in it else []) + (list(it["dist"]["args"].values()) if it.get("dist") else []):
-                if "i" in r and r["i"] > i:
-                    r["i"] -= 1
-            if it["k"] == "group":
-                it["members"] = {k: (j - 1 if j > i else j) for k, j in it["members"].items()}
+        p["spec"] = new
         yield p
 
 
